@@ -30,7 +30,7 @@
 (*           consumer that at some entries calls Lookup on the same reader *)
 (*           (lk: ranks asked, la: answers) and starts a second All() it   *)
 (*           leaves after three entries (ak/av: what those yielded, ac:    *)
-(*           how many were started)                                        *)
+(*           how many were started, ap: how many of them panicked)         *)
 (*  exits    early exits: [k, sk, sv, mk, mv, sp, mp] - All() of the        *)
 (*           streaming (s) / in-memory (m) reader consumed by a function   *)
 (*           that returns false from its k-th call on: everything it was   *)
@@ -105,6 +105,7 @@ ReentrantOK(c, all, x) ==
   IN /\ Len(x.ok) = Len(x.ov) /\ Zip(x.ok, x.ov) = all
      /\ Len(x.lk) = Len(x.la)
      /\ \A i \in 1..Len(x.lk) : x.la[i] = c.val[x.lk[i]]      \* RefLookup: the value id, -1 for an absent key
+     /\ x.ap = 0                                                \* no nested range loop panicked on break
      /\ Len(x.ak) = x.ac * p /\ Len(x.av) = Len(x.ak)
      /\ \A j \in 1..Len(x.ak) : <<x.ak[j], x.av[j]>> = all[((j - 1) % p) + 1]
 NestParts(c) ==
